@@ -277,7 +277,8 @@ where
 
 fn make_abbreviated_namespace(namespace: &str, existing_namespaces: &[Rc<Namespace>]) -> String {
     fn take_three_chars_max(namespace: &str) -> String {
-        namespace.chars().filter(|c| c != &'.').take(3).collect()
+        // the abbreviation is used as an XML prefix and in a Rust module name
+        namespace.chars().filter(char::is_ascii_alphanumeric).take(3).collect()
     }
 
     let mut append: Option<usize> = None;
